@@ -55,6 +55,7 @@ func Module(rt *rapid.T, cfg Cfg) (*am.Module, map[string]int) {
 	g.blockAddrGlobal()
 	g.fnAddrGlobals()
 	g.gepGlobals()
+	g.crossFunctionBlockAddresses() // before the use-list orders, which count the uses of block addresses
 	g.useListOrders()
 	g.metadata()
 	if g.cfg.DebugInfo && g.chance("debuginfo", 3, 4) {
@@ -725,6 +726,7 @@ func DrawNoise(rt *rapid.T) am.Noise {
 	}
 	return am.Noise{
 		InlineMD:        inl,
+		LeadingZeros:    rapid.IntRange(0, 3).Draw(rt, "n.leadingzeros") == 0,
 		AlwaysQuote:     rapid.IntRange(0, 3).Draw(rt, "n.quote") == 0,
 		EscapePrintable: rapid.IntRange(0, 3).Draw(rt, "n.escape") == 0,
 		Explicit:        rapid.Bool().Draw(rt, "n.explicit"),
@@ -810,6 +812,66 @@ func (g *G) fnAddrGlobals() {
 		}
 		g.M.Globals = append(g.M.Globals, &am.Global{Name: g.fresh("fnaddr"), T: t, Linkage: "internal", Constant: g.chance("fnaddrconst", 1, 2), Init: c})
 		g.feat("const/no_cfi")
+	}
+}
+
+// crossFunctionBlockAddresses rewrites some `i8* null` operands inside function bodies to the address of
+// a block of *another* function (named or numbered, earlier or later in the text): the only way a
+// function's text depends on the numbering of a different function.
+func (g *G) crossFunctionBlockAddresses() {
+	if g.off("cross-blockaddress") || !g.chance("crossba", 1, 3) {
+		return
+	}
+	for _, gl := range g.M.Globals {
+		if gl.Name == "" {
+			return // llvm-as-14 mis-numbers forward blockaddress placeholders next to unnamed globals
+		}
+	}
+	for _, f := range g.M.Funcs {
+		if f.Name == "" {
+			return
+		}
+	}
+	for _, a := range g.M.Aliases {
+		if a.Name == "" {
+			return
+		}
+	}
+	var targets []*am.Block
+	for _, f := range g.M.Funcs {
+		if f.AddrSpace != 0 || len(f.Blocks) < 2 {
+			continue
+		}
+		for _, b := range f.Blocks[1:] {
+			// llvm-as-14 resolves a forward blockaddress of a *numbered* block of another function to the
+			// wrong block (it reads `blockaddress(@later, %2)` as some named block): only checks that do not
+			// consult LLVM ask for unnamed targets
+			if b.Name != "" || g.cfg.CrossBAUnnamed {
+				targets = append(targets, b)
+			}
+		}
+	}
+	if len(targets) == 0 {
+		return
+	}
+	// a store of the address into an undefined slot, appended to a drawn block of another function
+	var users []*am.Fun
+	for _, f := range g.M.Funcs {
+		if len(f.Blocks) > 0 {
+			users = append(users, f)
+		}
+	}
+	for k := g.rng("ncrossba", 1, 3); k > 0 && len(users) > 1; k-- {
+		t := targets[g.intn("crossbat", len(targets))]
+		user := users[g.intn("crossbauser", len(users))]
+		if user == t.Func {
+			continue
+		}
+		blk := user.Blocks[g.intn("crossbablk", len(user.Blocks))]
+		ba := &am.Const{K: am.CBlockAddr, T: am.P(am.I8), Ref: t.Func, Block: t}
+		slot := &am.Const{K: am.CUndef, T: am.P(am.P(am.I8))}
+		blk.Insts = append(blk.Insts, &am.Inst{Op: "store", Args: []*am.Value{{K: am.VConst, C: ba}, {K: am.VConst, C: slot}}})
+		g.feat("const/blockaddress-of-other-function")
 	}
 }
 
